@@ -35,9 +35,10 @@ NOTES = [
 
 OFC = sftpd.OverwriteableFileConsumer
 sftpd.noisy = False
-for _m in ("write", "_update_downloaded", "overwrite", "set_current_size", "read", "when_reached_or_failed",
-           "download_done", "close"):
-    hlib.strip_method(OFC, _m, consts=hlib.PROV_CONSTS)
+from _stripall import strip_all
+# every method of the consumer (so a helper extracted by a refactor is treated the same): log statements removed,
+# b"\x00" * n / b"".join stand-ins for provenance buffers
+strip_all(OFC, consts=hlib.PROV_CONSTS)
 
 FIRED = []   # (deferred-token, value, number of temp-file writes done so far)
 _THE_FILE = [None]
